@@ -27,7 +27,7 @@ def held_after_prune(scr, out):
 def run(ctx):
     if not hc.ensure_builds(ctx): hc.finish(ctx, 'builds failed')
     n = 500 if ctx.quick() else 12000
-    H, impl, model, dis, hits = hc.run_profile(ctx, profiles.with_rotation(profiles.with_scenarios(profiles.C05)), n, trigger=trigger, extra_oracle=held_after_prune,
+    H, impl, model, dis, hits = hc.run_profile(ctx, profiles.with_rotation(profiles.with_scenarios(profiles.C05), 0.12, disable=None), n, trigger=trigger, extra_oracle=held_after_prune,
         claims=lambda op, a, b: op in ('DE', 'RF', 'PR'))
     if not ctx.quick() and not hits:
         import hist; x = hist.x
